@@ -39,9 +39,16 @@ def gen_case(rng, tier, index):
     if name in ("sum", "prod"):
         cfg.inf = False
     cfg.extremes = rng.random() < 0.3
-    T, vals, d = gen.layout(rng, cfg, min_depth=2 if rng.random() < 0.85 else None)
+    clean_outer = index % 8 == 1
+    if clean_outer:
+        # axis=0 of an array of lists: the sub-domain of outer-axis reduction that is correct on the unchanged tree
+        cfg.maxdepth = 1
+        cfg.regular = False
+    T, vals, d = gen.layout(rng, cfg, min_depth=2 if (clean_outer or rng.random() < 0.85) else None)
     hi = gen.depth_of(T)[1]
-    if index % 16 != 0:
+    if clean_outer and hi == 2:
+        axis = rng.choice([0, -2])
+    elif index % 16 != 0:
         axis = rng.choice([-1, hi - 1])
     else:
         # outer axes run the non-local pipeline, which has recorded crashes on ragged data (F10): capped stream
